@@ -264,6 +264,7 @@ class FnSpec:
         self.loop_iter_names = {}
         self.opaques = []
         self.opaque_exprs = []
+        self.opaque_forbid = []
         self.desugars = []
         self.etas = []
         self.default_from = None
@@ -415,6 +416,10 @@ def parse_vspec(path):
                     if not m:
                         raise Undecided('%s:%d: bad @opaque' % (path, i + 1))
                     fs.opaques.append((m.group(1).replace('\\"', '"'), m.group(2).replace('\\"', '"'), m.group(3).strip()))
+                    i += 1
+                elif h2 == '@opaque_forbid':
+                    # identifiers that must not occur in text dropped by @opaque (what the contracts of this fn hang on)
+                    fs.opaque_forbid += r2.split()
                     i += 1
                 elif h2 == '@opaque_expr':
                     # @opaque_expr "expression tokens" => opaque__f(args)     (rule D6, expression form)
@@ -895,6 +900,10 @@ class Extractor:
             texts = [t.text for t in rng]
             if any(t.kind == 'ident' and t.text in ('return', 'break', 'continue') for t in rng):
                 raise Undecided('@opaque range in %s contains return/break/continue' % where)
+            bad = [t.text for t in rng if t.kind == 'ident' and t.text in fs.opaque_forbid]
+            if bad:
+                raise Undecided('@opaque range `%s` .. `%s` in %s would drop a statement mentioning %s: the skeleton no longer '
+                                'matches the code' % (first, last, where, sorted(set(bad))))
             m = self.OPAQUE_RE.match(repl)
             if not m:
                 raise Undecided('@opaque replacement in %s is not of the form `[let PAT =] opaque__f(..)[?];`: %s' % (where, repl))
